@@ -293,6 +293,20 @@ structure ErrStrSrc where
   terseReturnsDifference : Bool
 deriving DecidableEq, Repr
 
+/-- `_warnings.py`: how `Warnings.match` gets at the LIST of warnings the callable emits -/
+structure WarningsSkel where
+  recordsInCatchWarnings : Bool    -- `with warnings.catch_warnings(record=True) as w:` (the caller's filters come back afterwards)
+  /-- the statements between entering the block and calling the matchee, e.g. `["warnings.simplefilter('always')"]`: with the action
+  "always" EVERY warning reaches `w` — repeats of one (text, category, line) included, whatever filters the caller had -/
+  beforeCall : List String
+  callsMatcheeInside : Bool        -- `matchee()` inside the block, nothing else after the filter
+  matcherGuard : ResTest           -- `if self.warnings_matcher is not None: return self.warnings_matcher.match(w)`
+  matcherGetsRecorded : Bool
+  otherwiseMismatchIfNone : Bool   -- `elif not w: return Mismatch(...)` and None when there was a warning
+  isDeprecatedIsListwiseOfOne : Bool  -- `Warnings(MatchesListwise([WarningMessage(category_type=DeprecationWarning, message=message)]))`
+  categoryByIdentity : Bool        -- `WarningMessage`: `category=… Is(category_type)`, the message matched after `str`
+deriving DecidableEq, Repr
+
 structure AssertSrc where
   helperAnnotates : Bool          -- `matcher = Annotate.if_message(message, matcher)`
   helperTest : ResTest            -- `if not mismatch: return`
@@ -395,6 +409,10 @@ def refMismatch : MismatchSrc :=
 def refErrStr : ErrStrSrc :=
   { describesFirst := true, verboseGuard := true, textReprFor := ["str", "bytes"], multilineFalse := true,
     otherwiseRepr := true, formatOrder := ["matchee", "self.matcher", "difference"], terseReturnsDifference := true }
+def refWarnings : WarningsSkel :=
+  { recordsInCatchWarnings := true, beforeCall := ["warnings.simplefilter('always')"], callsMatcheeInside := true,
+    matcherGuard := .isNotNone, matcherGetsRecorded := true, otherwiseMismatchIfNone := true,
+    isDeprecatedIsListwiseOfOne := true, categoryByIdentity := true }
 def refAssert : AssertSrc :=
   { helperAnnotates := true, helperTest := .falsy, helperDetailsUnique := true, helperReturnsError := true,
     assertRaisesIf := .isNotNone, expectTest := .isNotNone, expectDetailUnique := true, expectForcesFailure := true,
